@@ -16,7 +16,7 @@ def list_jobs(tier):
 def options(tier):
     if tier == "thorough":
         return pipeline.Options(timeout_ms=30000, max_queries=128)
-    return pipeline.Options(timeout_ms=5000, max_queries=48)
+    return pipeline.Options(timeout_ms=3000, max_queries=48, max_unknown=1, budget_s=25.0)
 
 
 EXTRA = [
